@@ -210,7 +210,7 @@ def base_membership(chk, rule):
 
 
 def r13_2(chk):
-    chk.rule("R13.2", "identifier matching is exact or anchored: no `<x>.endswith/startswith(<identifier>)`, no `<non-constant> in <identifier>`, no `<identifier>.replace(<non-constant>, ...)` (unanchored edits/matches change or hit other records)")
+    chk.rule("R13.2", "identifier matching is exact or anchored: no `<x>.endswith/startswith(<identifier>)`, no `<non-constant> in <identifier>`, no `<identifier>.replace(<non-constant>, ...)`, no `Path(<identifier>).stem` (unanchored edits/matches change or hit other records)")
     n = 0
     for rel, classes in ((DS, ("DataStoreABC", "DataStoreDirectory", "ReadOnlyDataStoreZipped")), (SQ, ("DataStoreSqlite",))):
         m = chk.repo.module(rel)
@@ -232,6 +232,8 @@ def r13_2(chk):
                             bad = f"`{norm(c)}` matches an identifier as a {'suffix' if a == 'endswith' else 'prefix'} of another: records whose id merely ends/starts with it are hit too"
                         elif a == "replace" and len(c.args) == 2 and is_id(c.func.value) and not const(c.args[0]) and not isinstance(c.func.value, ast.Call):
                             bad = f"`{norm(c)}` edits every occurrence of a run-time fragment inside the identifier, not only the trailing suffix"
+                    elif isinstance(c, ast.Attribute) and c.attr == "stem" and isinstance(c.value, ast.Call) and (call_name(c.value) or "").split(".")[-1] == "Path" and c.value.args and expr_derives(c.value.args[0], idn) and isinstance(c.ctx, ast.Load):
+                        bad = f"`{norm(c)}` drops the last dotted component of the caller's identifier, whatever it is (not a known format suffix): identifiers that differ only after their last dot are stored under one name"
                     elif isinstance(c, ast.Compare) and len(c.ops) == 1 and isinstance(c.ops[0], (ast.In, ast.NotIn)):
                         right = c.comparators[0]
                         if is_id(right) and isinstance(right, ast.Name) and not const(c.left) and right.id in idn:
